@@ -384,7 +384,7 @@ func c04Explore(r *verifmc.Report, ver trie.TrieLayout, depth int) {
 func TestVerif_C04(t *testing.T) {
 	r := verifmc.NewReport("C04", "persist-reload", "model_checking")
 	defer r.Write()
-	depth := verifmc.Pick(4, 5)
+	depth := verifmc.Pick(4, 6)
 	r.Rule = fmt.Sprintf("BFS (depth %d, V0 and V1) over put/delete on 4 main keys (01, 0100, 1500, 1523) with 1/32/33-byte values, putChild/clearChild on 2 child tries, and up to 3 persists (WriteDirty into a map-backed database then Snapshot); after every operation every persisted root is reloaded into a fresh trie (root, entries, child tries compared with the model) and read key by key with GetFromDB (4 keys + 6 absent probes incl. 23, which diverges inside the partial key of the branch of 1500/1523)", depth)
 	for _, ver := range []trie.TrieLayout{trie.V0, trie.V1} {
 		c04Explore(r, ver, depth)
